@@ -302,6 +302,8 @@ def explore(ctx, art):
                      "note": "schedule dependent histories are retried up to %d times on replay" % REPEAT}))
         if retransmitted(o):
             distinct.add(l)
+        if ".! " in o or ".!," in o:
+            ctx.count("copy-differs-after-edit-of-queued-request (precondition breached, model agrees)")
         if i >= nfixed - len(bursts) and i < nfixed:
             # how many requests one tick retransmitted together
             for seg in o.split(" | "):
